@@ -486,7 +486,7 @@ func sentinelCases() []*Case {
 	return []*Case{
 		sentinel("D4", "(.[2],.[0:1][1]) |= 7", "_mref((.[2],.[0:1][1]); 7)", "[1,2,3]"),
 		sentinel("D5", "(.[1:],.[1:]) |= [.]", "_mref((.[1:],.[1:]); [.])", "[0,1]"),
-		sentinel("D9", "(.a[0],.a,.a[0][0]) |= [.,.]", "_mref((.a[0],.a,.a[0][0]); [.,.])", `{"a":[0]}`),
+		sentinel("D9", "(.[0],.,.[0][0]) |= [.,.]", "_mref((.[0],.,.[0][0]); [.,.])", `[null]`),
 		{Kind: "path", Q: []string{".[1:]"}, Input: `"abc"`, Op: "sentinel:D10", Pre: ""},
 	}
 }
@@ -536,7 +536,7 @@ func fixedCases() []*Case {
 					continue
 				}
 				for _, f := range []body{{"[.,.]", false}, {"{x:.,y:.}", false}, {"7", true}} {
-					mod("("+a+","+b+","+c3+")", f.src, `{"a":[0]}`, f.scalar)
+					mod("("+a+","+b+","+c3+")", f.src, `{"a":[null]}`, f.scalar)
 				}
 			}
 		}
